@@ -21,6 +21,7 @@ InvOuterWins == (fi > 0 /\ V.t = "nodes") => XeOuterWins(D, V, Frags[fi])
 \* a usable run selects only containers, and its expectation differs from the input only if something is selected
 InvUsable == (fi > 0 /\ XeUsable(D, V, Frags[fi]) = "yes" /\ Len(V.v) = 0) => XeExpect(D, V, Frags[fi]) = Ser(D)
 InvDocsOk == TreeOk(D)
+ASSUME FlatIsChain
 
 Case ==
   IF fi = 0
